@@ -213,7 +213,8 @@ type cScenario struct {
 	Inst    int      `json:"instances,omitempty"`
 	Setup   []cSetup `json:"setup"`
 	Clock   int64    `json:"clock"`
-	Threads []cOp    `json:"threads"` // one operation per thread
+	Threads []cOp    `json:"threads"` // one operation per thread ...
+	Then    [][]cOp  `json:"then,omitempty"` // ... followed, in the same thread, by these (Then[i] after Threads[i])
 }
 
 func cPeer(op cOp) bittorrent.Peer {
@@ -340,13 +341,17 @@ func (e *concEnv) execOp(op cOp, known map[string]bool) []string {
 		lg.AfterAnnounce(ctx, req, resp)
 		all := append(append([]bittorrent.Peer{}, resp.IPv4Peers...), resp.IPv6Peers...)
 		a := cAnn(op)
+		apply := []string{"KAnnApply " + a}
+		if op.Ev == 2 {
+			// a stopped announce updates the membership with two store operations: two steps
+			apply = []string{"KAnnStopS " + a, "KAnnStopL " + a}
+		}
 		if e.sc.Kind == "redis" {
 			// the Redis clause is about the state reached once the operations have finished
-			return []string{"KAnnApply " + a}
+			return apply
 		}
-		return []string{fmt.Sprintf("KAnnCount %s %s", cB(unhx(op.IH)), cBool(op.V6)),
-			fmt.Sprintf("KAnnSelect %s %d %d %s", a, resp.Complete, resp.Incomplete, cKeys(all)),
-			"KAnnApply " + a}
+		return append([]string{fmt.Sprintf("KAnnCount %s %s", cB(unhx(op.IH)), cBool(op.V6)),
+			fmt.Sprintf("KAnnSelect %s %d %d %s", a, resp.Complete, resp.Incomplete, cKeys(all))}, apply...)
 	case "gc":
 		if e.sc.Kind == "mem" {
 			_ = memory.VerifGC(ps, op.Cutoff)
@@ -420,7 +425,11 @@ func runSchedule(sc cScenario, prefix []int, rng *rand.Rand, cb *coSched) (Case,
 			}
 		}
 	}
-	for _, op := range sc.Threads {
+	allOps := append([]cOp{}, sc.Threads...)
+	for _, l := range sc.Then {
+		allOps = append(allOps, l...)
+	}
+	for _, op := range allOps {
 		if op.IH != "" {
 			k := op.IH + "|" + cBool(op.V6)
 			if _, ok := known[k]; !ok {
@@ -438,6 +447,9 @@ func runSchedule(sc cScenario, prefix []int, rng *rand.Rand, cb *coSched) (Case,
 	}
 	midOK := true
 	var lockTrace []string
+	// advisory hint for the model's search (tried first, never trusted): the order in which the threads' steps took effect -
+	// memory: one entry per critical section entered (an expiry pass: its write sections); redis: whole operations as they returned
+	var hint []string
 	if sc.Kind == "mem" {
 		memory.VerifUnregisterAll()
 		memory.VerifRegister(e.stores[0])
@@ -447,6 +459,9 @@ func runSchedule(sc cScenario, prefix []int, rng *rand.Rand, cb *coSched) (Case,
 				tid = s.cur.id
 			}
 			lockTrace = append(lockTrace, fmt.Sprintf("(%d, %d, %s, %s)", tid, shard, cBool(write), cBool(acquire)))
+			if acquire && tid >= 0 && tid < len(sc.Threads) && (write || sc.Threads[tid].T != "gc") {
+				hint = append(hint, fmt.Sprint(tid))
+			}
 		}
 		memory.VerifYield = s.yield
 		s.onStep = func() {
@@ -475,7 +490,22 @@ func runSchedule(sc cScenario, prefix []int, rng *rand.Rand, cb *coSched) (Case,
 					memory.VerifYield, redisstore.VerifBeforeDo = func(func() bool) {}, func(string) {}
 				}
 			}()
+			done := func(n int) {
+				if sc.Kind == "redis" {
+					for ; n > 0; n-- {
+						hint = append(hint, fmt.Sprint(i))
+					}
+				}
+			}
 			steps[i] = e.execOp(op, known)
+			done(len(steps[i]))
+			if i < len(sc.Then) {
+				for _, op2 := range sc.Then[i] {
+					more := e.execOp(op2, known)
+					done(len(more))
+					steps[i] = append(steps[i], more...)
+				}
+			}
 		})
 	}
 	cancelW := wedgeWatch(wedgeLimit, "a schedule-forced scenario ("+sc.Name+")", func() map[string]interface{} {
@@ -569,9 +599,9 @@ func runSchedule(sc cScenario, prefix []int, rng *rand.Rand, cb *coSched) (Case,
 	if sc.Kind == "redis" {
 		kind = fmt.Sprintf("KRedisC %d", sc.Inst)
 	}
-	coq := fmt.Sprintf("{| c_kind := %s; c_setup := %s; c_clock := %s; c_threads := %s; c_final := %s; c_totals := (%s, %s, %s); c_recount := (%d, %d, %d); c_midflight_ok := %s; c_steps_only := %s; c_post := [SClock %s; SExpire %s]; c_final2 := %s; c_locks := %s |}",
+	coq := fmt.Sprintf("{| c_kind := %s; c_setup := %s; c_clock := %s; c_threads := %s; c_final := %s; c_totals := (%s, %s, %s); c_recount := (%d, %d, %d); c_midflight_ok := %s; c_steps_only := %s; c_post := [SClock %s; SExpire %s]; c_final2 := %s; c_locks := %s; c_hint := %s |}",
 		kind, cList(setup), cZ(sc.Clock), "[\n  "+strings.Join(thr, ";\n  ")+"]", cList(entries), cZ(ti), cZ(ts), cZ(tl), ri, rs, rl, cBool(midOK && ok), cBool(sc.Kind == "mem"),
-		cZ(postClock), cZ(postCut), cList(entries2), cList(lockTrace))
+		cZ(postClock), cZ(postCut), cList(entries2), cList(lockTrace), "["+strings.Join(hint, ";")+"]%nat")
 	in := map[string]interface{}{"scenario": sc.Name, "kind": sc.Kind, "sc": sc, "schedule": append([]int{}, s.picks...)}
 	obs := map[string]interface{}{"completed": ok, "entries": len(entries), "totals": []int64{ti, ts, tl}, "recount": []int64{ri, rs, rl}, "midflight_ok": midOK, "steps": steps, "panics": panics, "entries_after_late_expiry": len(entries2), "lock_events": len(lockTrace)}
 	return Case{Coq: coq, In: in, Obs: obs, Kind: sc.Kind + ":" + sc.Name}, s.picks, s.branch, ok
@@ -672,7 +702,8 @@ func concStream(o *Out, rng *rand.Rand, n int) {
 	opsPool := []cOp{p("puts", ihA, 2, 1), p("putl", ihA, 1, 1), p("dels", ihA, 1, 1), p("dell", ihA, 2, 1), p("grad", ihA, 2, 1), p("grad", ihA, 4, 1),
 		p("scrape", ihA, 0, 0), {T: "peers", IH: ihA, PID: mkID(2), IP: hx([]byte{10, 0, 0, 2}), Port: 1, NW: 2}, {T: "peers", IH: ihA, PID: mkID(9), IP: hx([]byte{10, 0, 0, 9}), Port: 1, NW: 50, Seeder: true},
 		{T: "ann", IH: ihA, PID: mkID(2), IP: hx([]byte{10, 0, 0, 2}), Port: 1, Left: 0, Ev: 3, NW: 5}, {T: "ann", IH: ihA, PID: mkID(5), IP: hx([]byte{10, 0, 0, 5}), Port: 1, Left: 7, NW: 1},
-		{T: "ann", IH: ihA, PID: mkID(1), IP: hx([]byte{10, 0, 0, 1}), Port: 1, Left: 0, NW: 0}, p("puts", ihB, 1, 1), p("dell", ihA, 3, 1), p("dels", ihA, 7, 1)}
+		{T: "ann", IH: ihA, PID: mkID(1), IP: hx([]byte{10, 0, 0, 1}), Port: 1, Left: 0, NW: 0}, p("puts", ihB, 1, 1), p("dell", ihA, 3, 1), p("dels", ihA, 7, 1),
+		{T: "ann", IH: ihA, PID: mkID(1), IP: hx([]byte{10, 0, 0, 1}), Port: 1, Left: 0, Ev: 2, NW: 0}}
 	for _, shards := range []int{1, 2} {
 		for i := 0; i < len(opsPool); i++ {
 			for j := i + 1; j < len(opsPool); j++ {
@@ -729,6 +760,28 @@ func concStream(o *Out, rng *rand.Rand, n int) {
 			thr = append(thr, op)
 		}
 		scs = append(scs, cScenario{Name: "redis-triple", Kind: "redis", Inst: 2, Setup: baseSetup, Clock: c1, Threads: thr})
+	}
+	// one client issuing TWO operations one after the other while another operation is in flight: an operation that is
+	// not one transaction can be split by them in a way no ordering explains (its first half before the first, its
+	// second half after the second)
+	{
+		on1 := func(op cOp) cOp { op.Inst = 1; return op }
+		seqs := [][3]cOp{
+			{p("grad", ihA, 2, 1), p("putl", ihA, 2, 1), p("dels", ihA, 2, 1)},
+			{p("grad", ihA, 2, 1), p("dels", ihA, 2, 1), p("putl", ihA, 2, 1)},
+			{p("grad", ihA, 2, 1), p("puts", ihA, 2, 1), p("dell", ihA, 2, 1)},
+			{{T: "ann", IH: ihA, PID: mkID(2), IP: hx([]byte{10, 0, 0, 2}), Port: 1, Left: 0, Ev: 3, NW: 5}, p("putl", ihA, 2, 1), p("dels", ihA, 2, 1)},
+			{{T: "ann", IH: ihA, PID: mkID(1), IP: hx([]byte{10, 0, 0, 1}), Port: 1, Left: 0, Ev: 2, NW: 0}, p("puts", ihA, 1, 1), p("putl", ihA, 1, 1)},
+			{p("putl", ihA, 1, 1), p("dels", ihA, 1, 1), p("dell", ihA, 1, 1)},
+		}
+		for _, q := range seqs {
+			scs = append(scs, cScenario{Name: "redis-seq", Kind: "redis", Inst: 2, Setup: baseSetup, Clock: c1,
+				Threads: []cOp{q[0], on1(q[1])}, Then: [][]cOp{nil, {on1(q[2])}}})
+		}
+		for k := 0; k < n/100+2; k++ {
+			a, b, c := rOps[rng.Intn(len(rOps))], on1(rOps[rng.Intn(len(rOps))]), on1(rOps[rng.Intn(len(rOps))])
+			scs = append(scs, cScenario{Name: "redis-seq", Kind: "redis", Inst: 2, Setup: baseSetup, Clock: c1, Threads: []cOp{a, b}, Then: [][]cOp{nil, {c}}})
+		}
 	}
 	// redis expiry concurrent with operations on OTHER members (must be exact) ...
 	for _, other := range []cOp{p("puts", ihA, 8, 1), p("putl", ihB, 6, 1), p("dell", ihA, 3, 1), p("dels", ihA, 1, 1), p("dell", ihA, 2, 1)} {
